@@ -173,6 +173,8 @@ class Pi2Lev(schemes.interface.inverted_index_sse.InvertedIndexSSE):
         K1, K2 = tk.K1, tk.K2
 
         prev_level_result = [self.config.prf_f(K1, b'\x00')]  # from top level to search
+        if prev_level_result[0] not in D:  # the keyword is not in the database
+            return Pi2LevResult([])
         curr_level_result = []
         curr_process_level = 0
         is_in_file_id_level = False
